@@ -30,7 +30,7 @@ func init() {
 
 func checkC01Read(c c01ReadCase) string {
 	b := renderSRT(c.Doc, c.Rend)
-	s, err := astisub.ReadFromSRT(bytes.NewReader(b))
+	s, err := astisub.ReadFromSRT(deliver(b))
 	if err != nil {
 		return fmt.Sprintf("reader rejected a well-formed document: %v\n--- document ---\n%q", err, clip(string(b), 600))
 	}
